@@ -92,7 +92,27 @@ enum class Scoped : uint8_t
   Blue = 200
 };
 inline std::string_view format_as(Scoped s) { return s == Scoped::Red ? "Red" : s == Scoped::Green ? "Green" : "Blue"; }
+enum class DirectEnum : uint8_t // an enum whose Codec is specialised by the user (direct format): names of different lengths
+{
+  A = 0,
+  Bee = 1,
+  CeeCeeCeeCeeCeeCeeCee = 2
+};
 } // namespace ut
+template <>
+struct fmtquill::formatter<ut::DirectEnum>
+{
+  constexpr auto parse(format_parse_context& ctx) { return ctx.begin(); }
+  auto format(ut::DirectEnum e, format_context& ctx) const
+  {
+    ut::note_fmt_thread();
+    return fmtquill::format_to(ctx.out(), "{}", e == ut::DirectEnum::A ? "A" : e == ut::DirectEnum::Bee ? "Bee" : "CeeCeeCeeCeeCeeCeeCee");
+  }
+};
+template <>
+struct quill::Codec<ut::DirectEnum> : quill::DirectFormatCodec<ut::DirectEnum>
+{
+};
 
 template <>
 struct fmtquill::formatter<ut::DefTrivial>
@@ -260,6 +280,15 @@ struct G<ut::Scoped>
   static Owner make(Rng& r) { return r.pick({ut::Scoped::Red, ut::Scoped::Green, ut::Scoped::Blue}); }
   static Owner const& arg(Owner const& o) { return o; }
   static void scramble(Owner& o) { o = ut::Scoped::Red; }
+};
+template <>
+struct G<ut::DirectEnum>
+{
+  using Owner = ut::DirectEnum;
+  static constexpr bool alloc_free_class = false; // direct format
+  static Owner make(Rng& r) { return r.pick({ut::DirectEnum::A, ut::DirectEnum::Bee, ut::DirectEnum::CeeCeeCeeCeeCeeCeeCee}); }
+  static Owner const& arg(Owner const& o) { return o; }
+  static void scramble(Owner& o) { o = ut::DirectEnum::A; }
 };
 template <>
 struct G<void const*>
@@ -748,7 +777,7 @@ struct Shape
   // than twelve of them are outside the property's no-allocation class (they are in the catalogue for C04)
   static constexpr size_t cached_sizes = ((std::is_same_v<Ts, char const*> || std::is_array_v<Ts> ? 1 : std::is_same_v<Ts, std::optional<char const*>> || std::is_same_v<Ts, std::pair<char const*, int32_t>> ? 1 : std::is_same_v<Ts, std::tuple<char const*, int32_t, char const*>> ? 2 : std::is_same_v<Ts, std::vector<char const*>> ? 4 : 0) + ...);
   static constexpr bool alloc_free_class = (G<Ts>::alloc_free_class && ...) && cached_sizes <= 12;
-  static constexpr bool has_direct = (std::is_same_v<Ts, ut::DirectT> || ...);
+  static constexpr bool has_direct = ((std::is_same_v<Ts, ut::DirectT> || std::is_same_v<Ts, ut::DirectEnum>) || ...);
   // a direct-format type nested in an optional: formatted at the call site only when engaged (no demand either way in
   // alloc mode), and decoded as a string, which the optional formatter quotes and escapes (recorded finding class)
   static constexpr bool nested_direct = (std::is_same_v<Ts, std::optional<ut::DirectT>> || ...);
@@ -898,6 +927,8 @@ static void register_shapes()
   // deferred-format types of growing size (inline thresholds, cache lines, larger than a page)
   SHAPE(ut::DefSized<8>) SHAPE(ut::DefSized<64>) SHAPE(ut::DefSized<256>) SHAPE(ut::DefSized<264>) SHAPE(ut::DefSized<1024>) SHAPE(ut::DefSized<4104>)
   SHAPE(ut::DefSized<520>, str, ut::DefSized<16>)
+  // an enum with a user-specialised (direct format) codec, alone and next to arithmetic / string arguments only
+  SHAPE(ut::DirectEnum) SHAPE(ut::DirectEnum, int32_t) SHAPE(ut::DirectEnum, ut::DirectEnum, str) SHAPE(sv, ut::DirectEnum, double)
 #endif
 #if P(1)
   SHAPE(vec<int32_t>) SHAPE(vec<str>) SHAPE(vec<double>) SHAPE(vec<ut::Scoped>) SHAPE(std::deque<int64_t>) SHAPE(std::deque<str>)
